@@ -214,7 +214,8 @@ fn render_chunked(rng: &mut Rng, body: &[u8], parts: &[usize]) -> Vec<u8> {
         pos += p;
     }
     // the last chunk, now and then followed by a trailer section (RFC 9112 7.1.2): the payload is the same either way
-    out.extend(b"0\r\n");
+    out.extend(*rng.pick(&[&b"0"[..], b"0", b"0", b"00", b"000", b"00000000"]));
+    out.extend(b"\r\n");
     if rng.chance(1, 6) {
         for _ in 0..rng.range(1, 3) {
             out.extend(format!("{}: {}\r\n", rng.pick(&["X-Checksum", "Expires", "x-t"]), rng.pick(&["abc", "0", "Thu, 01 Jan 1970 00:00:00 GMT"])).as_bytes());
